@@ -16,3 +16,10 @@ Definition c_StructEnd := 11.
 Definition c_ZeroTag := 12.
 Definition c_SimpleList := 13.
 Definition c_maxSkipDepth := 512.
+Definition c_fainN := 5.
+Definition c_failInterval := 5.
+Definition c_checkTime := 60.
+Definition c_overN := 2.
+Definition c_failRatioNum := 1.
+Definition c_failRatioDen := 2.
+Definition c_tryTimeInterval := 30.
